@@ -10,6 +10,8 @@ Part 'measure' : measure_1site / measure_2site (all bond patterns) / measure_nsi
 """
 import itertools
 
+import warnings
+
 import numpy as np
 
 from vlib import common as C
@@ -475,6 +477,8 @@ def draw_measure_case(data, tier):
     else:
         case['number'] = data.draw(st.sampled_from([3, 5, 8]))
         case['sseed'] = data.draw(st.integers(0, 9999))
+        # without symmetry (and without fermionic strings) any orthonormal local basis is admissible: complex rotated bases, one per site
+        case['basis'] = data.draw(st.sampled_from(['z', 'rotated', 'rotated_per_site'])) if sp.sym == 'dense' and not np.any(sp.ferm) else 'z'
     return case
 
 
@@ -607,14 +611,35 @@ def execute_measure_case(case):
             nt = bool(sp.ferm) and k >= 2 and sites != sorted(sites)
         else:
             C.reseed_backend(case['sseed'])
-            projs = [G.basis_vector(sp, i) for i in range(sp.d)]
-            samples, probs = mps.sample(ket, projs, number=case['number'], return_probabilities=True)
+            basis = case.get('basis', 'z')
+            if basis == 'z':
+                projs = [G.basis_vector(sp, i) for i in range(sp.d)]
+                Us = [np.eye(sp.d)] * N
+            else:
+                rng = np.random.default_rng(case['sseed'])
+                Us = []
+                for _ in range(N if basis == 'rotated_per_site' else 1):
+                    Q, _R = np.linalg.qr(rng.normal(size=(sp.d, sp.d)) + 1j * rng.normal(size=(sp.d, sp.d)))
+                    Us.append(Q)        # columns = orthonormal local vectors
+                Us = Us if basis == 'rotated_per_site' else Us * N
+
+                def vec(col):
+                    t = yastn.Tensor(config=sp.config, s=(1,), dtype='complex128')
+                    t.set_block(Ds=(sp.d,), val=col)
+                    return t
+                projs = {n: [vec(Us[n][:, i]) for i in range(sp.d)] for n in range(N)} if basis == 'rotated_per_site' else \
+                    [vec(Us[0][:, i]) for i in range(sp.d)]
+                labels.append('sample:' + basis)
+            with warnings.catch_warnings():
+                warnings.simplefilter('ignore')      # (numpy ComplexWarning: sample() stores |amplitude|^2 of complex vectors into a real array)
+                samples, probs = mps.sample(ket, projs, number=case['number'], return_probabilities=True)
             nrm2 = float(np.vdot(v, v).real)
+            vt = v.reshape((sp.d,) * N)
             for smp, p in zip(samples, probs):
-                idx = 0
-                for s in smp:
-                    idx = idx * sp.d + int(s)
-                born = abs(v[idx]) ** 2 / nrm2
+                amp = vt
+                for n_, s in enumerate(smp):        # <u_s0 u_s1 ... | v>, site by site
+                    amp = np.tensordot(Us[n_][:, int(s)].conj(), amp, axes=(0, 0))
+                born = abs(complex(amp)) ** 2 / nrm2
                 if abs(born - p) > 1e-9:
                     raise Violation('sample:born_probability', f'configuration {smp.tolist()} reported probability {p}, Born probability {born}')
                 if born < 1e-14:
